@@ -302,6 +302,24 @@ def d5_d6(prog, rep):
             rep.check(c.pos in tested, "D5-checked", "%s in %s: result tested" % (c.text[:40], f.name), c.where,
                       "%s can fail for lack of memory; its result is not tested, so on failure the computation goes on with an unset operand and still reports success" % c.callee,
                       function=f.name, construct="bn-checked:" + c.callee)
+        # ... and the calls that answer a *length* are not statuses: BN_bn2bin answers 0 for the number zero, BN_num_bytes
+        # likewise -- a branch that takes a zero answer for a failure refuses the results 0 (from a peer value of 0 or p)
+        for c in f.calls():
+            if c.callee not in ("BN_bn2bin", "BN_num_bytes", "BN_num_bits"):
+                continue
+            for b in f.blocks.values():
+                if b.cond is None or len(b.succs) != 2:
+                    continue
+                for truth in (True, False):
+                    for op, L, R, Le, Re in cond_atoms(b.cond, truth):
+                        # the call itself, or a length computed from it (BN_num_bytes is (BN_num_bits + 7) / 8)
+                        if R == ("c", 0) and op == "==" and any(t == norm(c) for t in subterms(L)):
+                            sb = b.succs[0 if truth else 1]
+                            vals, _ = f.returns_from(sb) if sb is not None else ([], None)
+                            bad = bool(vals) and all(v is not None and v[0] == "c" and v[1] != 0 for v in vals)
+                            rep.check(not bad, "D6-total", "%s in %s: a zero length is not treated as a failure" % (c.text[:40], f.name), c.where,
+                                      "%s answers the length of the number, which is 0 for the number zero; the edge on which it is 0 leads only to failure returns" % c.callee,
+                                      function=f.name, construct="length-as-status:" + c.callee)
         aborts = []
         ptr_params = set(p["name"] for p in f.params if (u.types.get(p["ty"]) or {}).get("kind") in ("ptr", "array"))
         for c in f.calls():
